@@ -747,3 +747,78 @@ Definition accept_full_timeout (m : mode) (script : list pscript) (ctor : bool)
            (obs_items_ : list item) (obs_keys : list (nat * option pstate)) : bool :=
   existsb (fun sc => accept_full m sc obs_items_ obs_keys && Bool.eqb ctor (ctor_fails m sc))
           (early_timeouts script).
+
+(* ---- target identities: coordinator stability -------------------------------------------------
+   Which node receives each request of a page, as a relation an observer at the server can
+   check WITHOUT knowing the load balancer's plan: [cur] = the target the next attempt goes to
+   when the observer knows it (the coordinator that served the previous page; the target of the
+   previous attempt after RetrySameTarget / a re-prepare), [None] when it only knows that it is a
+   target not used before in this page (page 0; after RetryNextTarget; after a target whose
+   connection could not be acquired).  The plan running out ends the page's requests early. *)
+Definition fits (cur : option target) (used : list target) (x : target) : bool :=
+  match cur with
+  | Some t => x =? t
+  | None => negb (existsb (N.eqb x) used)
+  end.
+Definition add_used (cur : option target) (used : list target) : list target :=
+  match cur with Some t => t :: used | None => used end.
+
+Fixpoint follows (fs : list fault) (cur : option target) (used : list target)
+         (obs : list target) : bool :=
+  match fs with
+  | [] => match obs with [x] => fits cur used x | _ => false end
+  | FConnFail :: fs' =>
+      match obs with [] => true | _ => follows fs' None (add_used cur used) obs end
+  | FTimeout :: _ => match obs with [x] => fits cur used x | _ => false end
+  | FErr _ DDont :: _ => match obs with [x] => fits cur used x | _ => false end
+  | FErr _ DIgnore :: _ => match obs with [x] => fits cur used x | _ => false end
+  | FUnprep :: fs' =>
+      match obs with x :: obs' => fits cur used x && follows fs' (Some x) used obs' | [] => false end
+  | FErr _ DSame :: fs' =>
+      match obs with x :: obs' => fits cur used x && follows fs' (Some x) used obs' | [] => false end
+  | FErr _ DNext :: fs' =>
+      match obs with
+      | x :: obs' =>
+          fits cur used x && match obs' with [] => true | _ => follows fs' None (x :: used) obs' end
+      | [] => false
+      end
+  end.
+
+Fixpoint last_opt {A} (l : list A) : option A :=
+  match l with [] => None | [x] => Some x | _ :: r => last_opt r end.
+
+(* page after page: the first request of page i+1 goes to the node that answered page i *)
+Fixpoint coord_ok (stable : option target) (script : list pscript) (obs : list (list target))
+  {struct obs} : bool :=
+  match obs with
+  | [] => true
+  | o :: obs' =>
+      match script with
+      | [] => false
+      | ps :: rest => follows (ps_faults ps) stable [] o && coord_ok (last_opt o) rest obs'
+      end
+  end.
+
+(* the targets of the model's requests, page by page (Session pagers) *)
+Fixpoint worker_targets (stable : option target) (rest : list pscript) : list (list target) :=
+  match rest with
+  | [] => []
+  | ps :: rest' =>
+      let (ts, r) := fetch_one MSession stable ps in
+      match r with
+      | FCompleted c (RRows _ (Some _)) => ts :: worker_targets (Some c) rest'
+      | _ => [ts]
+      end
+  end.
+Definition seq_targets (script : list pscript) : list (list target) := worker_targets None script.
+
+(* ---- one page with the caller's paging state: Session::{query,execute}_single_page --------
+   The caller resumes a query with a PagingState it kept; the request goes through the same
+   fiber loop (fresh plan, no stable coordinator); every attempt must carry exactly the state
+   the caller gave. *)
+Definition single_run (st : option pstate) (ps : pscript)
+  : list (nat * option pstate) * fetch_result :=
+  let (ts, r) := fetch_one MSession None ps in (map (fun _ => (O, st)) ts, r).
+
+(* what the caller must get, from the meaning of the decisions (n nodes) *)
+Definition single_expected (n : nat) (ps : pscript) : pout := spec_page MSession n ps.
